@@ -156,6 +156,31 @@ fn verif_search() {
     let which = std::env::var("VERIF_SEARCH").unwrap_or_else(|_| "c01".into());
     let corpus = corpus();
     println!("SEARCH property={} inputs={}", which, corpus.len());
+    if which == "c06" {
+        // IDAT runs cut into several chunks (so that the plain zlib scan cannot see the stream) or behind a zlib header
+        // that is not in the signature table, followed by: IEND, nothing at all, a few stray bytes, a truncated chunk
+        for (n, blk) in [(1100usize, 65535usize), (3000, 1024)] {
+            let p = plain(n, n as u64 + 3);
+            let raw = stored_stream(&p, blk);
+            for hdr in [[0x78u8, 0x9c], [0x68, 0x81], [0x58, 0x85]] {
+                let z = zlib_wrap(hdr, &raw, &p);
+                for splits in [vec![z.len()], vec![700; 8], vec![1, 1, z.len()], vec![z.len() - 4, 4]] {
+                    if splits.len() == 1 && hdr[0] == 0x78 { continue; }
+                    let mut run: Vec<u8> = vec![];
+                    let mut pos = 0;
+                    for &sp in &splits { let e = (pos + sp).min(z.len()); run.extend_from_slice(&idat_chunk(&z[pos..e])); pos = e; if pos == z.len() { break; } }
+                    if pos < z.len() { run.extend_from_slice(&idat_chunk(&z[pos..])); }
+                    for tail in [&[0u8, 0, 0, 0, b'I', b'E', b'N', b'D', 0xae, 0x42, 0x60, 0x82][..], &[][..], &[1u8, 2, 3][..], &[0u8, 0, 0, 9, b'I', b'D', b'A', b'T', 1, 2][..], &[0u8, 0, 0, 0, b'I', b'D', b'A', b'T', 0, 0, 0, 0][..]] {
+                        for head in [&[0x89u8, b'P', b'N', b'G', 13, 10, 26, 10, 0, 0, 0, 0][..], &[9u8, 9, 9, 9][..]] {
+                            let mut f = head.to_vec(); f.extend_from_slice(&run); f.extend_from_slice(tail);
+                            let expanded = match std::panic::catch_unwind(|| expand_zlib_chunks(&f, 0)) { Ok(Ok(e)) => e, _ => report(&which, "expand_zlib_chunks failed on a PNG-like file", &f) };
+                            if !contains(&expanded, &p) { report(&which, &format!("IDAT run ({} chunks, zlib header {:02x}{:02x}, {} bytes after the run) was copied, not expanded", splits.len(), hdr[0], hdr[1], tail.len()), &f); }
+                        }
+                    }
+                }
+            }
+        }
+    }
     for f in corpus.iter() {
         let expanded = match std::panic::catch_unwind(|| expand_zlib_chunks(f, 0)) {
             Ok(Ok(e)) => e,
